@@ -143,6 +143,14 @@ func roundTrip(x []byte) (sym, det string, m1, m2 *schema.Definitions) {
 	if d := equiv(m1, ref); len(d) > 0 {
 		return "model-altered", "serialising changed the model: " + strings.Join(d, "; "), m1, m2
 	}
+	// the texts as the accessors hand them out (what the engine evaluates):
+	// exactly the same before serialising, after it, and in the re-parsed model
+	if d := sameTexts(ref, m1); d != "" {
+		return "model-altered", "serialising changed a text of the model: " + d, m1, m2
+	}
+	if d := sameTexts(ref, m2); d != "" {
+		return "not-equivalent", "a text of the re-parsed model differs: " + d, m1, m2
+	}
 	// a parsed model is a value of its own: parsing an unrelated document
 	// (other expression / type language, other target namespace) must not
 	// change what an already parsed model says
